@@ -51,6 +51,17 @@ func init() {
 		for _, v := range vs {
 			if !v.Proven {
 				fmt.Fprintln(os.Stderr, "UNPROVEN", sinkText(p, v.Sink), v.Missing, p.Pos(v.Sink.Instr.Pos()))
+			} else {
+				fmt.Fprintln(os.Stderr, "proven", sinkText(p, v.Sink), v.Why, p.Pos(v.Sink.Instr.Pos()))
+			}
+		}
+		if os.Getenv("DBG_TRACE_PROVEN") != "" {
+			for _, v := range vs {
+				if v.Proven && strings.HasSuffix(p.Pos(v.Sink.Instr.Pos()), ":"+os.Getenv("DBG_TRACE_PROVEN")) {
+					traceProver = true
+					fmt.Fprintln(os.Stderr, "== hi <= len", pr.ProveLen(v.Sink.Hi, 0, v.Sink.Container, 0, v.Sink.Instr.Block()))
+					traceProver = false
+				}
 			}
 		}
 		if want := os.Getenv("DBG_LINE"); want != "" {
